@@ -69,7 +69,9 @@ DA = ["test/a", [["varint", "k"], ["varint", "n"], ["string", "s"], ["boolean", 
                  ["datetime", "t2"], ["string[]", "l"]]]
 DB = ["test/b", [["varint", "k"], ["string", "s"], ["float", "f"], ["bytes", "data"], ["uint16", "port"]]]
 DC = ["t/c", [["varint", "k"], ["string", "s"], ["datetime", "ts"], ["varint", "n"]]]
-DESCS = [DA, DB, DC]
+# a second definition of test/a (another plugin version: same record type name, other fields and order)
+DA2 = ["test/a", [["string", "s"], ["varint", "k"], ["uint16", "port"], ["varint", "n"], ["float", "f"]]]
+DESCS = [DA, DB, DC, DA2]
 S_POOL = ["abc", "a", "ABC", "b", "x y", "q=1", "é", "a,b", "", "it's", "日本"]
 FIELD_POOL = ["k", "n", "s", "b", "t1", "t2", "l", "f", "data", "port", "ts", "zz", "_source"]
 MISSING = object()
